@@ -149,17 +149,36 @@ mutant("c08-v2-clean-keeps-trailing-slash", "C08", "cvss/cvss2.py",
        "an explicit ND leaves an empty field behind")
 
 # ------------------------------------------------------------------------------ C18 (immutable value)
-mutant("c18-as-json-cached-per-instance", "C18", "cvss/cvss3.py",
-       """        base_severity, temporal_severity, environmental_severity = self.severities()
-
-        data = {""",
-       """        base_severity, temporal_severity, environmental_severity = self.severities()
+mutant("c18-as-json-cached-per-instance", "C18", edits=[
+    ("cvss/cvss3.py",
+     """        base_severity, temporal_severity, environmental_severity = self.severities()
+""",
+     """        base_severity, temporal_severity, environmental_severity = self.severities()
         _cache = self.__dict__.setdefault("_json_cache", {})
         if (sort, minimal) in _cache:
             return _cache[(sort, minimal)]
+"""),
+    ("cvss/cvss3.py",
+     """        if sort:
+            data = OrderedDict(sorted(data.items()))
+        return data
 
-        data = _cache[(sort, minimal)] = {""",
-       "the dict handed out is the cached one (sort=False only)")
+    def __hash__(self):
+        return hash(self.clean_vector())
+
+    def __eq__(self, o):
+        if isinstance(o, CVSS3):""",
+     """        if sort:
+            data = OrderedDict(sorted(data.items()))
+        _cache[(sort, minimal)] = data
+        return data
+
+    def __hash__(self):
+        return hash(self.clean_vector())
+
+    def __eq__(self, o):
+        if isinstance(o, CVSS3):""")],
+    note="the dict handed out is a per-instance cached one")
 mutant("c18-minimal-pops-metrics", "C18", "cvss/cvss2.py",
        """        if not minimal or self.temporal_score:
             for metric in TEMPORAL_METRICS:""",
@@ -189,19 +208,18 @@ mutant("c18-clean-vector-memo-ignores-prefix", "C18", "cvss/cvss4.py",
        "first call decides the prefix for all later calls")
 mutant("c18-json-built-in-module-level-dict", "C18", edits=[
     ("cvss/cvss4.py",
-     """        data = {
-            "version": "4",
-            "vectorString": self.vector,
-        }
+     """        data = OrderedDict(
+            [
+                ("version", "4"),
+                ("vectorString", self.vector),
+            ]
+        )
 """,
      """        data = _SCRATCH
         data.clear()
-        data.update({
-            "version": "4",
-            "vectorString": self.vector,
-        })
+        data.update([("version", "4"), ("vectorString", self.vector)])
 """),
-    ("cvss/cvss4.py", "def final_rounding(x):", "_SCRATCH = {}\n\n\ndef final_rounding(x):")],
+    ("cvss/cvss4.py", "def final_rounding(x):", "_SCRATCH = OrderedDict()\n\n\ndef final_rounding(x):")],
     note="as_json(sort=False) returns one module-level dict by reference")
 mutant("c18-eq-caches-other", "C18", "cvss/cvss2.py",
        """        if isinstance(o, CVSS2):
@@ -339,3 +357,46 @@ mutant("c19-v4-lookup-table-pop", "C19", "cvss/cvss4.py",
        "        value = CVSS_LOOKUP_GLOBAL[macroVector]\n",
        "        value = CVSS_LOOKUP_GLOBAL[macroVector]\n        if macroVector == '212221':\n            CVSS_LOOKUP_GLOBAL['212221'] = 0.0\n",
        "one rare macrovector (lowest) zeroes its own table entry after first use (0.1 -> 0.0 afterwards)")
+
+# ------------------------------------------------------------------------------ C20 (interpreter portability)
+mutant("c20-fstring-in-interactive", "C20", "cvss/interactive.py",
+       '        raise ValueError("Unknown version: {0}".format(version))',
+       '        raise ValueError(f"Unknown version: {version}")',
+       "syntax newer than Python 2.7")
+mutant("c20-walrus-in-parser", "C20", "cvss/parser.py",
+       "            if cvss not in seen:\n                seen.add(cvss)\n                cvsss.append(cvss)",
+       "            if (c := cvss) not in seen:\n                seen.add(c)\n                cvsss.append(c)",
+       "syntax newer than Python 3.7")
+mutant("c20-removeprefix-in-cvss3", "C20", "cvss/cvss3.py",
+       '            fields = self.vector.split("/")[1:]',
+       '            fields = self.vector.removeprefix("CVSS:3.%d/" % self.minor_version).split("/")',
+       "str.removeprefix needs Python 3.9")
+mutant("c20-math-prod-in-compute-esc", "C20", "cvss/cvss3.py",
+       """        self.esc = (
+            D("8.22")
+            * self.get_value("AV")
+            * self.get_value("AC")
+            * self.get_value("PR")
+            * self.get_value("UI")
+        )""",
+       """        self.esc = D("8.22") * __import__("math").prod(self.get_value(m) for m in ("AV", "AC", "PR", "UI"))""",
+       "math.prod needs Python 3.8")
+mutant("c20-integer-division-step", "C20", "cvss/cvss4.py",
+       "        step = 0.1\n", "        step = 1 / 10\n", "Python 2.7: 1 / 10 == 0 without the division import")
+mutant("c20-plain-dict-constants", "C20", "cvss/constants2.py",
+       """METRICS_ABBREVIATIONS = OrderedDict(
+    [
+        ("AV", "Access Vector"),""",
+       """METRICS_ABBREVIATIONS = dict(
+    [
+        ("AV", "Access Vector"),""",
+       "Python 2.7: clean-vector / question order becomes arbitrary")
+mutant("c20-union-annotation", "C20", "cvss/cvss2.py",
+       "def round_to_1_decimal(value):", "def round_to_1_decimal(value: D | None):", "PEP 604 annotation evaluated at def time: < 3.10")
+mutant("c20-dict-union-operator", "C20", "cvss/cvss4.py",
+       '        PR_levels = {"N": 0.0, "L": 0.1, "H": 0.2}',
+       '        PR_levels = {"N": 0.0} | {"L": 0.1, "H": 0.2}', "dict | dict needs Python 3.9")
+mutant("c20-print-to-file-kw-bytes-py2", "C20", "cvss/cvss_calculator.py",
+       '            print("Cleaned vector:       ", cvss_vector.clean_vector())',
+       '            print("Cleaned vector:       ", cvss_vector.clean_vector().encode("ascii").decode("ascii") if str is not bytes else repr(cvss_vector.clean_vector()))',
+       "Python 2 branch prints the repr (u'...')")
